@@ -95,6 +95,29 @@ rule('D3', 'token', r'self\.tokens\.as_bytes\(\)\.iter\(\)\.position\(\|&b\| b =
      'crate::verif_specs::position_eq(self.tokens.as_bytes(), 0)', 1,
      'Iterator::position with an equality predicate == first index holding the value (shim contract)')
 
+# ---- arguments --------------------------------------------------------------------------------------
+rule('D12', 'arguments', r"#\[derive\(Debug, Eq, PartialEq\)\]\npub enum Arg<'a> \{",
+     "#[derive(Debug, Eq)]\npub enum Arg<'a> {", 1,
+     'derived PartialEq over &str payloads gets no Verus spec: replaced by the variant-wise impl it expands to (next rule)')
+rule('D12', 'arguments', r"\n#\[derive\(Clone, Debug, Eq\)\]\npub struct ArgList<'a> \{\n    tokens: Tokens<'a>,\n\}\n",
+     "\nimpl<'a> PartialEq for Arg<'a> {\n    fn eq(&self, other: &Self) -> bool {\n        match (self, other) {\n"
+     "            (Arg::DoubleDash, Arg::DoubleDash) => true,\n            (Arg::LongOption(x), Arg::LongOption(y)) => *x == *y,\n"
+     "            (Arg::ShortOption(x), Arg::ShortOption(y)) => *x == *y,\n            (Arg::Value(x), Arg::Value(y)) => *x == *y,\n"
+     "            _ => false,\n        }\n    }\n}\n"
+     "\n#[derive(Debug, Eq)]\npub struct ArgList<'a> {\n    tokens: Tokens<'a>,\n}\n\n"
+     "impl<'a> Clone for ArgList<'a> {\n    fn clone(&self) -> Self {\n        ArgList { tokens: self.tokens.clone() }\n    }\n}\n", 1,
+     '#[derive(PartialEq)] on an enum expands to variant-wise comparison; #[derive(Clone)] to field-wise clone')
+rule('D7', 'arguments', r"impl<'a> Iterator for ArgsIter<'a> \{\n    type Item = Arg<'a>;\n\n    fn next\(&mut self\) -> Option<Self::Item> \{",
+     "impl<'a> ArgsIter<'a> {\n    pub fn next(&mut self) -> Option<Arg<'a>> {", 1,
+     'impl Iterator drags in vstd\'s prophetic iterator laws: `next` is verified as an inherent method with the same body')
+rule('X7', 'arguments', r"    fn eq\(&self, other: &Self\) -> bool \{\n        self\.args\(\)\.eq\(other\.args\(\)\)\n    \}",
+     "    #[verifier::external_body]\n    fn eq(&self, other: &Self) -> bool {\n        unimplemented!() // NOT MIRRORED: self.args().eq(other.args())\n    }", 1,
+     'NOT MIRRORED: PartialEq for ArgList compares two ArgsIter with Iterator::eq (ArgsIter is no Iterator in the '
+     'mirror, D7); the impl is only used by tests and derived PartialEq of RawCommand; body hidden, no contract')
+rule('X7', 'arguments', r"macro_rules! impl_arg_fromstr \{.*?\n\}\n\nimpl_arg_fromstr! \{[^}]*\}\n", '', 1,
+     'NOT MIRRORED: FromArgument impls for char/bool/integers/floats (one-line str::parse wrappers generated by a '
+     'macro_rules!); only derive output calls them', flags=re.M | re.S)
+
 
 def apply(module, src, log):
     for r in RULES:
